@@ -72,7 +72,7 @@ Proof.
   intros Ha S1 S2. destruct (globalize_spec r p Ha) as ((Hc & Hc0 & Hf & Ht & Hl) & Ep & Hag).
   exists (globalize r p). split; [repeat split; assumption|]. split; [exact Hag|]. split; [reflexivity|].
   rewrite <- Ep in S2 |- *.
-  apply (typecheck_rn (globalize r p) Hc Hf Ht Hl (lexT (globalize r p)) (lexL (globalize r p)) True).
+  apply (typecheck_rn (globalize r p) Hc Hc0 Hf Ht Hl (lexT (globalize r p)) (lexL (globalize r p)) True).
   - apply (key_faithful_lex (globalize r p) Ht Hl).
   - apply syn_okprog; assumption.
 Qed.
